@@ -64,6 +64,12 @@ pub struct Case {
     pub trips: Vec<Trip>,
     /// enumerate every limit value from 0 to need+1 for all three kinds
     pub enumerate: bool,
+    /// after the program, with the limit still armed, this many further evaluations (a rejected
+    /// source that runs a meta block first, then the program again): the bounds hold across them
+    pub follow_ups: usize,
+    /// step style only, with reverse recording on: after this many forward steps, step back this
+    /// many times, then go on forward (instructions executed twice are executed twice)
+    pub rewind: Option<(usize, usize)>,
 }
 
 pub struct Limits;
@@ -72,7 +78,7 @@ const WATCHDOG: usize = 4000;
 const STEP_CAP: usize = 3 * WATCHDOG;
 
 fn prepare(case: &Case) -> Xstate {
-    let cfg = BootCfg { recording: false, intercept_emit: true, input: case.input.clone(), d2: false };
+    let cfg = BootCfg { recording: case.rewind.is_some(), intercept_emit: true, input: case.input.clone(), d2: false };
     let mut xs = boot(&cfg);
     for h in &case.history {
         xs.set_insn_limit(Some(20_000)).unwrap();
@@ -347,6 +353,7 @@ fn experiment(case: &Case, p: &Profile, t: &Trip, st: &mut Stats) -> Outcome {
                 let mut res = Ok(());
                 let mut steps = 0usize;
                 let mut armed = !mid;
+                let mut rewound = false;
                 while xs.is_running() {
                     if !armed && steps == t.at_step {
                         arm(&mut xs, &mut b);
@@ -359,6 +366,20 @@ fn experiment(case: &Case, p: &Profile, t: &Trip, st: &mut Stats) -> Outcome {
                             "no-stop",
                             format!("the program was still running after {} steps under {} limit {}", steps, t.kind.name(), t.value),
                         ));
+                    }
+                    if let Some((at, k)) = case.rewind {
+                        if steps == at && !rewound {
+                            rewound = true;
+                            // not back beyond the instant the limit was set: restoring an older,
+                                // larger stack is not growth (DESIGN §8.8)
+                            for _ in 0..k.min(steps_after_set) {
+                                if xs.rnext().is_err() {
+                                    break;
+                                }
+                                st.count("probe.reverse_steps_under_a_limit");
+                            }
+                            check_invariants(&xs, &b, "after reverse steps")?;
+                        }
                     }
                     match xs.next() {
                         Ok(()) => {
@@ -410,7 +431,7 @@ fn experiment(case: &Case, p: &Profile, t: &Trip, st: &mut Stats) -> Outcome {
         }
     }
     // needs are known when the profile ran to the end and the limit was set before the submission
-    if !p.cut && !mid {
+    if !p.cut && !mid && !(case.rewind.is_some() && case.style == Style::CompileStep) {
         // `need`: the smallest limit value under which the unlimited twin's run fits.
         // must_fail below it; must_pass from need + slack on. The stack profile is taken after each
         // instruction (inside compile() too, through hook H4), so a word that pushes temporaries
@@ -461,6 +482,17 @@ fn experiment(case: &Case, p: &Profile, t: &Trip, st: &mut Stats) -> Outcome {
                 ));
             }
         }
+    }
+    // "after the limit is set" does not end with the first evaluation: the limits stay armed
+    // while more sources are submitted, accepted or rejected
+    for i in 0..case.follow_ups {
+        let _ = xs.eval("#( 1 2 + drop 3 4 + drop #) zzunknownword");
+        check_invariants(&xs, &b, "after a rejected follow-up source")?;
+        check_watch(&mut xs, &mut b, "during a rejected follow-up source")?;
+        let _ = if i % 2 == 0 { xs.eval(&case.program) } else { xs.compile(&case.program).and_then(|_| xs.run()) };
+        check_invariants(&xs, &b, "after a follow-up evaluation")?;
+        check_watch(&mut xs, &mut b, "during a follow-up evaluation")?;
+        st.count("probe.follow_up_evaluations_under_the_same_limits");
     }
     if tripped {
         st.nontrivial = true;
@@ -539,7 +571,9 @@ impl Engine for Limits {
             }
         };
         let style = *rng.pick(&[Style::Eval, Style::CompileRun, Style::CompileStep]);
-        let mut case = Case { input, history, program, style, trips: Vec::new(), enumerate: false };
+        let follow_ups = if rng.chance(1, 3) { 1 + rng.below(3) } else { 0 };
+        let rewind = if style == Style::CompileStep && rng.chance(1, 3) { Some((1 + rng.below(12), 1 + rng.below(6))) } else { None };
+        let mut case = Case { input, history, program, style, trips: Vec::new(), enumerate: false, follow_ups, rewind };
         if tier == Tier::Thorough && rng.chance(1, 2) {
             case.enumerate = true;
             return case;
@@ -672,6 +706,21 @@ impl Engine for Limits {
             c.style = Style::Eval;
             out.push(c);
         }
+        if case.follow_ups > 0 {
+            let mut c = case.clone();
+            c.follow_ups -= 1;
+            out.push(c);
+        }
+        if let Some((a, k)) = case.rewind {
+            let mut c = case.clone();
+            c.rewind = None;
+            out.push(c);
+            if k > 1 {
+                let mut c = case.clone();
+                c.rewind = Some((a, k - 1));
+                out.push(c);
+            }
+        }
         out
     }
 
@@ -684,7 +733,10 @@ impl Engine for Limits {
             "program" => c.program.clone(),
             "style" => format!("{:?}", c.style),
             "trips" => Json::Arr(trips),
-            "enumerate" => c.enumerate
+            "enumerate" => c.enumerate,
+            "follow_ups" => c.follow_ups,
+            "rewind_at" => c.rewind.map(|r| r.0),
+            "rewind_k" => c.rewind.map(|r| r.1)
         }
     }
 
@@ -710,6 +762,11 @@ impl Engine for Limits {
             style,
             trips,
             enumerate: j.f_bool("enumerate")?,
+            follow_ups: j.get("follow_ups").and_then(|x| x.int()).unwrap_or(0) as usize,
+            rewind: match (j.get("rewind_at").and_then(|x| x.int()), j.get("rewind_k").and_then(|x| x.int())) {
+                (Some(a), Some(k)) => Some((a as usize, k as usize)),
+                _ => None,
+            },
         })
     }
 }
